@@ -1069,6 +1069,7 @@ func init() {
 		ID: "C07", Title: "Header serialisation round trips and keeps identity invariants under edits", Level: "other",
 		Rules: []RuleDef{
 			{Name: "TAG-VIEWS", What: "for @HD/@SQ/@RG/@PG: the field String prints under a tag is the field the line parser fills for that tag (raw text for string fields), and Get/Set/Tags mean the same field; user-defined tags kept and printed", Floor: 100, Run: ruleTagViews},
+			{Name: "REFLINE-FIELDS", What: "sam.referenceLine installs the reference built from an @SQ line in the header – appended, or in place of a held one – only after it has seen both SN and LN (added for a defect of the unchanged tree, repaired 8e75300)", Floor: 1, Run: ruleReflineFields},
 			{Name: "COUPLED-HEADER", What: "every insertion, adoption, replacement, removal, renumbering and renaming of a header item keeps owner, id = index and the name table in step; id/owner are assigned only in reviewed functions; Remove* guards test the container they splice", Floor: 60, Run: ruleCoupledHeader},
 			{Name: "FRESH-LINKS", What: "MergeHeaders: each source gets its own link slice; each link is owned by the merged header", Floor: 3, Run: ruleFreshLinks},
 			{Name: "MERGE-KEEPS", What: "AddReference's merge of a compatible duplicate overwrites a field only with the duplicate's non-empty value; the @CO parser keeps the whole remainder of the line", Floor: 5, Run: ruleMergeKeeps},
